@@ -149,17 +149,6 @@ impl<K: KeyT, V: ValT> World<K, V> {
             _ => (None, None),
         };
         for (mi, slot) in self.maps.iter_mut().enumerate() {
-            if mdst == Some(mi) {
-                // unspecified contents: replace the destination (see c07.rs)
-                let old = std::mem::replace(&mut slot.m, new_map::<K, V>(&cfg.map_hashers[mi], 0));
-                let r = call(|| sut(|| drop(old)));
-                if r.result.is_err() {
-                    return Err("dropping the destination of an interrupted clone_from panicked".to_string());
-                }
-                slot.model.clear();
-                slot.countdown = None;
-                continue;
-            }
             let r = call(|| {
                 let mut m = std::collections::BTreeMap::new();
                 for (k, v) in sut(|| slot.m.iter()) {
@@ -175,16 +164,6 @@ impl<K: KeyT, V: ValT> World<K, V> {
             slot.countdown = if st.split && st.old_len > 0 { Some(((st.old_len + st.r - 1) / st.r.max(1)) as u64) } else { None };
         }
         for (si, slot) in self.sets.iter_mut().enumerate() {
-            if sdst == Some(si) {
-                let old = std::mem::replace(&mut slot.s, new_set::<K>(&cfg.set_hashers[si], 0));
-                let r = call(|| sut(|| drop(old)));
-                if r.result.is_err() {
-                    return Err("dropping the destination of an interrupted clone_from panicked".to_string());
-                }
-                slot.model.clear();
-                slot.countdown = None;
-                continue;
-            }
             let r = call(|| {
                 let mut m = std::collections::BTreeMap::new();
                 for k in sut(|| slot.s.iter()) {
